@@ -523,3 +523,10 @@ SPECS["C02"]["queries"] += [
 ]
 SPECS["C02"]["encodes"] += ["distributed/mpi.c:mpi_remote_msg_send", "mpi_remote_anti_msg_send", "mpi_control_msg_send_to", "mpi_remote_msg_handle", "mpi_remote_msg_drain"]
 SPECS["C02"]["assumptions"] += ["<mpi.h> is a stub; the wire is a harness model: one message in flight, delivered as sent (content integrity is MPI's guarantee; delay/reordering are exercised only through the arrival-order cases of the matching queries)"]
+
+
+# cross-property obligations surfaced by seeded changes
+SPECS["C04"]["queries"] += [P_STEP1[1], P_STEP1[4]]   # every extracted message, anti-messages included, is reported to the GVT module
+SPECS["C04"]["encodes"] += ["lp/process.c:process_msg (gvt_on_msg_extraction hook)"]
+SPECS["C01"]["queries"] += [SPECS["C13"]["queries"][0]]  # fossil collection never reclaims what a later same-timestamp straggler needs
+SPECS["C06"]["queries"] += [SPECS["C13"]["queries"][0]]  # ... nor a processed buffer its sender can still cancel
